@@ -299,7 +299,33 @@ def gen_C12(v, n):
             i = rng.randint(2, len(parts))
             probes.append("/".join(parts[:i]))
         probes.append(v.typed_sid(search=0)[1])
-        out.append(_op("C12", {"leaves": ls, "searches": _searches(v, leaves, 6, allow_gt=0.15) + [rng.choice(ls)], "probes": probes}))
+        # '>' together with an alias / an or-list: the overall last lives in ONE of the unfolded searches
+        # (two versions, each holding a different extension of one alias group)
+        lopsided = []
+        from gen import re_words
+        for label, fields in leaves[:3]:
+            keys = [k for k, _ in fields]
+            ext = fields[-1][1]
+            groups = [(a, exts) for a, exts in v.aliases.items() if ext in exts and len(exts) > 1]
+            vk = [k for k in keys[:-1] if dict(v.tdict[label])[k]["t"] != "star" and any(ch.isdigit() for ch in dict(fields)[k])]
+            if not groups or not vk:
+                continue
+            alias, exts = rng.choice(groups)
+            k = vk[-1]
+            i = keys.index(k)
+            words = [w for w in re_words(dict(v.tdict[label])[k], rng) if w not in ("*", ">") and w != fields[i][1]]
+            other_ext = rng.choice([e for e in exts if e != ext])
+            if not words or other_ext not in re_words(dict(v.tdict[label])[keys[-1]], rng, limit=200):
+                continue
+            sib = list(fields)
+            sib[i] = (k, rng.choice(words))
+            sib[-1] = (keys[-1], other_ext)
+            ls.append("/".join(val for _, val in sib))
+            segs = [val for _, val in fields]
+            segs[i] = ">"
+            for last in (alias, ",".join(sorted([ext, other_ext])), ",".join(sorted([ext, other_ext], reverse=True))):
+                lopsided.append("/".join(segs[:-1] + [last]))
+        out.append(_op("C12", {"leaves": ls, "searches": _searches(v, leaves, 6, allow_gt=0.15) + lopsided + [rng.choice(ls)], "probes": probes}))
     return out
 
 
